@@ -178,7 +178,7 @@ def run(chk: Check):
             flat = np.vstack(outs)
             for r in range(len(flat)):
                 want = (start + (idx0 + r) * alpha) % 1
-                if np.max(np.abs(flat[r] - want)) > 1e-12:
+                if not (np.max(np.abs(flat[r] - want)) <= 1e-12):
                     chk.fail(f"R-sequence point {r} is not frac(offset + n*alpha)", {"case": {"kind": "rsampler", "seed": seed, "d": d, "sizes": sizes}})
                     break
             if len(flat) > 1:
